@@ -104,7 +104,7 @@ var subcommands = map[string]func(common){
 	"tbl-assertion":   func(c common) { table(c, tbldrv.AssertionCase) },
 	"tbl-reqobj":      func(c common) { table(c, tbldrv.RequestObjectCase) },
 	"tbl-authresp":    func(c common) { table(c, tbldrv.AuthResponseCase) },
-	"tbl-codec":       func(c common) { table(c, tbldrv.CodecCase) },
+	"tbl-codec":       func(c common) { tbldrv.DiscWorldPath = c.world; table(c, tbldrv.CodecCase) },
 	"tbl-interop":     func(c common) { table(c, tbldrv.InteropCase) },
 	"tbl-keywiring":   func(c common) { tbldrv.DiscWorldPath = c.world; table(c, tbldrv.KeyWiringCase) },
 	"tbl-keyrotation": func(c common) { tbldrv.InstallRotationHook(); table(c, tbldrv.KeyRotationCase) },
